@@ -71,6 +71,7 @@ type Enc struct {
 	paramRefs        []T
 	anchorMissing    []string
 	imprecise        []string
+	replay           *ReplaySpec
 }
 
 type Frame struct {
